@@ -47,6 +47,17 @@ INTERPRETATION (the reading of the property text that the check demands):
     option values are booleans or absent.  Every case starts with column `e` EMPTY: a case that
     converted it is followed by RemoveColumn + AddColumn (World.ensure_empty), so cases (also the
     chained ones, which keep the data columns of the rows) are independent and replays faithful.
+  * SEVERAL ACTIONS IN ONE BUNDLE (kind "seq"): the reference semantics is sequential - every action of a
+    bundle sees the table as the previous actions of that bundle left it, so an upsert that follows an
+    UpdateRecord / BulkUpdateRecord / AddRecord / RemoveRecord / another upsert which changed a cell of one of
+    its require columns (or added / removed a record) must look up the CHANGED table.  Demanded: the bundle's
+    retValues (every action's) and the final table T (all cells incl. the formula column, manualSort) equal those
+    of the same actions applied as separate bundles, no other table changes; and when an action of the bundle
+    is rejected (after the preceding ones were applied) the WHOLE bundle is rejected with the same error and
+    the document is left exactly as it was before the bundle.  Every link of the separate-bundle chain is
+    itself judged: the upserts as ordinary single-action cases (reference + frame + model tie), the plain
+    record actions by a naive reference (convert + store / append with defaults / delete).  Sequences do not
+    name the EMPTY column e (its conversion is a schema change: covered by the single-action cases only).
 """
 import copy
 import itertools
@@ -76,6 +87,23 @@ SIG_CONVDUP = "require rows distinct as sent but equal after the column's type c
 SIG_SINGLE = "AddOrUpdateRecord with empty require and empty col_values returns NONE without checking its options"
 SIG_BLANK = ("blank string '' required on an empty column that stays empty is stored as None: the added record does "
              "not match its own require")
+
+# several user actions in ONE bundle (kind "seq") - none of the recorded findings is ever used for these
+SIG_SEQ_RET = ("an upsert inside a bundle of several actions returns other records than when the same actions are "
+               "applied as separate bundles (it does not see the table as the previous actions left it)")
+SIG_SEQ_TABLE = ("a bundle of several actions with upserts leaves another table than the same actions applied as "
+                 "separate bundles")
+SIG_SEQ_OTHER = "a bundle of several actions with upserts changed another table"
+SIG_SEQ_REJECTED = "a bundle of actions that are all accepted when applied as separate bundles is rejected"
+SIG_SEQ_ACCEPTED = ("a bundle is accepted although one of its actions is rejected when applied after the preceding "
+                    "ones as separate bundles")
+SIG_SEQ_ERROR = "a bundle is rejected with another error than its rejected action applied on its own"
+SIG_SEQ_ROLLBACK = "a bundle rejected because of one of its actions changed the document"
+SIG_SEQ_STALE_F = ("bundle rejected because of an invalid upsert after earlier actions of the bundle wrote: the data "
+                   "is restored but cells of the formula column keep their mid-bundle values until the next "
+                   "calculation (nothing else differs)")
+SIG_SEQ_PLAIN = ("a plain record action applied as a bundle of its own differs from its naive reference "
+                 "(link of the sequential reference chain)")
 
 
 # --------------------------------------------------------------------------- tokens
@@ -145,6 +173,7 @@ class World(object):
     self.table = self.doc.engine.tables["T"]
     self.n_cases = 0
     self.n_restored = 0
+    self.poisoned = False
     self.econv = EmptyConv(self.doc.engine)
     assert self.is_empty()
     self.refresh()
@@ -598,10 +627,7 @@ def compare_model(real, mo, kind):
     if real.get("error") != m.get("error") or real.get("tag") != m.get("tag"):
       return "error: real %r model %r" % ({k: real.get(k) for k in ("error", "tag")}, {k: m.get(k) for k in ("error", "tag")})
     return None
-  if kind == "bulk":
-    mret = {k: m[k] for k in ("recordIds", "addRecordIds", "updateRecordIds")}
-  else:
-    mret = {"recordIds": m["recordIds"], "action": m["action"]}
+  mret = model_ret(m, kind)
   if mret != real["ret"]:
     return "retValues: real %r model %r" % (real["ret"], mret)
   mids = [r[0] for r in m["table"]]
@@ -613,6 +639,497 @@ def compare_model(real, mo, kind):
       if d.get(c) != real["cells"][str(rid)][c]:
         return "cell %s.%s: real %r model %r" % (rid, c, real["cells"][str(rid)][c], d.get(c))
   return None
+
+
+# --------------------------------------------------------------------------- several actions in one bundle
+
+UPSERTS = ("BulkAddOrUpdateRecord", "AddOrUpdateRecord")
+SEQ_KEYS = DATA + [FORMULA]          # (the EMPTY column is kept out of the sequences, see INTERPRETATION)
+
+
+def f_of(i):
+  """F_EXPR on a stored cell of column i."""
+  return (i if isinstance(i, int) else 0) * 2
+
+
+def upsert_case(action, rows_data):
+  return {"kind": "bulk" if action[0] == "BulkAddOrUpdateRecord" else "single", "rows": rows_data,
+          "require": action[2], "col_values": action[3], "options": action[4]}
+
+
+def data_rows(rows_full):
+  return [[rid, {c: rec[c] for c in DATA}] for rid, rec in rows_full]
+
+
+def plain_reference(rows_full, action, conv, defaults):
+  """Naive reference of UpdateRecord / BulkUpdateRecord / AddRecord / RemoveRecord on T (values are stored as the
+  column converts them, a new record gets the column defaults and the id max+1 unless one is given, the formula
+  column follows column i).  Returns (rows, retValue) or None when the action has to be rejected."""
+  rows = copy.deepcopy(rows_full)
+  byid = dict((r[0], r[1]) for r in rows)
+  name, ret = action[0], None
+  if name in ("UpdateRecord", "BulkUpdateRecord"):
+    ids = [action[2]] if name == "UpdateRecord" else list(action[2])
+    vals = {c: [v] for c, v in action[3].items()} if name == "UpdateRecord" else action[3]
+    if any(rid not in byid for rid in ids) or any(c not in DATA for c in vals) or \
+       any(len(v) != len(ids) for v in vals.values()):
+      return None
+    for k, rid in enumerate(ids):
+      for c in vals:
+        byid[rid][c] = conv(c, vals[c][k])
+  elif name == "AddRecord":
+    rid = action[2]
+    if rid is None:
+      rid = max(byid) + 1 if byid else 1
+    if rid in byid or any(c not in DATA for c in action[3]):
+      return None
+    rec = dict(defaults)
+    rec.update({c: conv(c, v) for c, v in action[3].items()})
+    rows.append([rid, rec])
+    rows.sort(key=lambda r: r[0])
+    ret = rid
+  elif name == "RemoveRecord":
+    if action[2] not in byid:
+      return None
+    rows = [r for r in rows if r[0] != action[2]]
+  else:
+    raise ValueError("action outside the sequence vocabulary: %r" % (action,))
+  for _, rec in rows:
+    rec[FORMULA] = f_of(rec["i"])
+  return rows, ret
+
+
+def match_sets(rows_full, sc, conv):
+  """Per input row of an upsert the ids of the records matching its require key in `rows_full` (exact scan with
+  the converted key), or None for a request without well-formed input rows."""
+  req = sc["require"]
+  if sc["kind"] == "single":
+    req = {k: [v] for k, v in req.items()}
+  if any(c not in ALLC for c in req) or any(not isinstance(v, list) for v in req.values()):
+    return None
+  lens = set(len(v) for v in req.values())
+  if len(lens) > 1:
+    return None
+  n = lens.pop() if lens else 1
+  out = []
+  for k in range(n):
+    key = {c: conv(c, req[c][k]) for c in req}
+    out.append([rid for rid, rec in rows_full if all(rec[c] == key[c] for c in key)])
+  return out
+
+
+def changed_cells(rows_a, rows_b):
+  """{row id: set of columns} whose cells differ between two full-row lists (added / removed records: every
+  column)."""
+  a, b = dict((r[0], r[1]) for r in rows_a), dict((r[0], r[1]) for r in rows_b)
+  out = {}
+  for rid in set(a) | set(b):
+    if rid not in a or rid not in b:
+      out[rid] = set(ALLC)
+    else:
+      cols = set(c for c in ALLC if ptok_or_repr(a[rid][c]) != ptok_or_repr(b[rid][c]))
+      if cols:
+        out[rid] = cols
+  return out
+
+
+def ptok_or_repr(v):
+  try:
+    return ptok(v)
+  except ValueError:
+    return "r" + repr(v)
+
+
+class SeqGen(object):
+  """Adaptive, seeded generator of ONE bundle of 3-7 user actions on T around one lookup key (1-2 require columns,
+  the formula column included): upserts alternate with actions that change key cells (UpdateRecord /
+  BulkUpdateRecord of a key column - column i for the formula key -, AddRecord, RemoveRecord, upserts whose
+  col_values hold a key column), preferably of the records the previous actions touched; the upserts look up
+  the keys that records acquired in this bundle, the keys they lost, keys of present records and pool values.
+  The generator sees the table as the actions applied so far (as separate bundles) left it."""
+
+  def __init__(self, rng):
+    self.rng = rng
+    if rng.random() < 0.75:
+      self.K = [rng.choice(["i", "i", "i", "t", "c", "r", "b", FORMULA, FORMULA])]
+    else:
+      self.K = rng.sample(SEQ_KEYS, 2)
+    self.n = rng.choice([3, 3, 4, 4, 5, 5, 6, 7])
+    self.last = None
+    self.hot = []
+    self.fresh = []
+    self.stale = []
+    self.n_ups = 0
+    self.bad_at = rng.randrange(1, self.n) if rng.random() < 0.07 else None
+
+  def key_of(self, rec):
+    return {c: rec[c] for c in self.K}
+
+  def note(self, changed_ids):
+    self.hot = sorted(changed_ids) or self.hot
+
+  def next(self, rows, k):
+    if k >= self.n:
+      return None
+    rng = self.rng
+    if k == self.n - 1:
+      ups = self.n_ups == 0 or rng.random() < 0.9
+    elif self.last is None:
+      ups = rng.random() < 0.6
+    elif self.last == "U":
+      ups = rng.random() < 0.25
+    else:
+      ups = rng.random() < 0.85
+    if ups:
+      self.last = "U"
+      self.n_ups += 1
+      return self.upsert(rows, k)
+    self.last = "C"
+    return self.change(rows)
+
+  def _pick(self, ids):
+    hot = [r for r in self.hot if r in ids]
+    if hot and self.rng.random() < 0.7:
+      return self.rng.choice(hot)
+    return self.rng.choice(ids)
+
+  def _keyvals(self, rec):
+    """New values for the key columns of a record: {stored column: value} (column i stands in for the formula)."""
+    rng = self.rng
+    cols = [c for c in self.K if rng.random() < 0.8] or [rng.choice(self.K)]
+    out = {}
+    for c in cols:
+      ce = "i" if c == FORMULA else c
+      pool = [v for v in POOL[ce] if v != rec.get(ce)] or POOL[ce]
+      out[ce] = rng.choice(pool) if rng.random() < 0.95 else rng.choice(WILD)
+    return out
+
+  def _after(self, rec, vals):
+    rec = dict(rec, **vals)
+    rec[FORMULA] = f_of(rec["i"])
+    return rec
+
+  def change(self, rows):
+    rng = self.rng
+    ids = [r[0] for r in rows]
+    byid = dict((r[0], r[1]) for r in rows)
+    kind = rng.choice(["upd"] * 5 + ["bulkupd", "add", "add", "rem", "rem"]) if rows else "add"
+    if kind == "bulkupd" and len(ids) < 2:
+      kind = "upd"
+    if kind == "upd":
+      rid = self._pick(ids)
+      vals = self._keyvals(byid[rid])
+      self.stale.append(self.key_of(byid[rid]))
+      self.fresh.append(self.key_of(self._after(byid[rid], vals)))
+      if rng.random() < 0.3:
+        vals.setdefault("t", rng.choice(POOL["t"]))
+      return ["UpdateRecord", "T", rid, vals]
+    if kind == "bulkupd":
+      rids = [self._pick(ids)]
+      rids.append(rng.choice([r for r in ids if r != rids[0]]))
+      ce = "i" if self.K[0] == FORMULA else self.K[0]
+      vs = []
+      for rid in rids:
+        v = rng.choice([x for x in POOL[ce] if x != byid[rid][ce]] or POOL[ce])
+        vs.append(v)
+        self.stale.append(self.key_of(byid[rid]))
+        self.fresh.append(self.key_of(self._after(byid[rid], {ce: v})))
+      return ["BulkUpdateRecord", "T", rids, {ce: vs}]
+    if kind == "add":
+      rid = None
+      if rng.random() < 0.2:
+        free = [x for x in range(1, 13) if x not in ids]
+        rid = rng.choice(free)
+      base = {"i": 0, "t": "", "b": False, "c": "", "r": 0}
+      if self.stale and rng.random() < 0.4:
+        key = rng.choice(self.stale)
+        vals = {("i" if c == FORMULA else c): (v // 2 if c == FORMULA and isinstance(v, int) else v)
+                for c, v in key.items()}
+      else:
+        vals = self._keyvals(base)
+      if rng.random() < 0.3:
+        vals.setdefault("t", rng.choice(POOL["t"]))
+      self.fresh.append(self.key_of(self._after(base, vals)))
+      return ["AddRecord", "T", rid, vals]
+    rid = self._pick(ids)
+    self.stale.append(self.key_of(byid[rid]))
+    return ["RemoveRecord", "T", rid]
+
+  def upsert(self, rows, k):
+    rng = self.rng
+    byid = dict((r[0], r[1]) for r in rows)
+    single = rng.random() < 0.35
+    n = 1 if single else rng.choice([1, 1, 2, 2, 3])
+    keys, seen, tries = [], set(), 0
+    while len(keys) < n and tries < 30:
+      tries += 1
+      x = rng.random()
+      hot = [r for r in self.hot if r in byid]
+      if x < 0.35 and self.fresh:
+        key = rng.choice(self.fresh[-3:])
+      elif x < 0.55 and self.stale:
+        key = rng.choice(self.stale[-3:])
+      elif x < 0.7 and hot:
+        key = self.key_of(byid[rng.choice(hot)])
+      elif x < 0.85 and rows:
+        key = self.key_of(rng.choice(rows)[1])
+      else:
+        key = {c: rng.choice(POOL[c]) for c in self.K}
+      try:
+        h = hashable_eq_key([key[c] for c in self.K])
+      except ValueError:
+        continue
+      if h in seen:
+        continue
+      seen.add(h)
+      keys.append(key)
+    n = len(keys)
+    require = {c: [key[c] for key in keys] for c in self.K}
+    cv_cols = rng.sample(DATA, rng.choice([1, 1, 2]))
+    if rng.random() < 0.3:                      # an upsert that itself changes a key cell of what it matches
+      ce = "i" if self.K[0] == FORMULA else self.K[0]
+      if ce not in cv_cols:
+        cv_cols.append(ce)
+    col_values = {c: [rng.choice(POOL[c]) for _ in range(n)] for c in cv_cols}
+    for j, key in enumerate(keys):              # the keys the written records get / the added ones have
+      rec = dict({"i": 0, "t": "", "b": False, "c": "", "r": 0},
+                 **{c: v for c, v in key.items() if c != FORMULA})
+      self.fresh.append(self.key_of(self._after(rec, {c: col_values[c][j] for c in cv_cols})))
+      self.stale.append(key)
+    if rng.random() < 0.5:
+      options = {}
+    else:
+      options = {"on_many": rng.choice(["first", "none", "all", "all"])}
+      for o in ("update", "add"):
+        if rng.random() < 0.15:
+          options[o] = False
+    case = {"kind": "bulk", "require": require, "col_values": col_values, "options": options}
+    if self.bad_at is not None and k >= self.bad_at:
+      case = break_request(rng, case)
+      self.bad_at = None
+      single = False
+    if single:
+      return ["AddOrUpdateRecord", "T", {c: v[0] for c, v in case["require"].items()},
+              {c: v[0] for c, v in case["col_values"].items()}, case["options"]]
+    return ["BulkAddOrUpdateRecord", "T", case["require"], case["col_values"], case["options"]]
+
+
+def run_seq(w, case):
+  """One bundle of several user actions.  Phase A: the actions one by one as separate bundles on the reset
+  table (generated adaptively from `seq_seed` unless the case carries its `actions`); every upsert of that
+  chain is an ordinary single-action case (run_case: reference, frame, model op), every plain action is
+  compared with its naive reference.  Phase B: the table reset again (in a brand-new document when
+  `fresh_b`: no lookup index exists yet), all actions as ONE bundle; its retValues / final table / error must
+  be those of phase A."""
+  ed = w.ed
+  rows_init = case["rows"]
+  fresh_b = bool(case.get("fresh_b"))
+  fixed = case.get("actions")
+  gen = None if fixed is not None else SeqGen(random.Random("C28/seq/%s" % case["seq_seed"]))
+  w.reset(rows_init)
+  init_full = w.rows()
+  defaults = {c: w.table.get_column(c).getdefault() for c in STORED}
+  findings, steps, step_at, sep, actions = [], [], [], [], []
+  facts = {"n_actions": 0, "n_upserts": 0, "fresh_b": fresh_b, "accepted": None, "plain": [],
+           "lookups_after_change": 0, "lookups_rechanged": 0, "matches_moved_since_start": 0,
+           "matches_moved_since_lookup": 0, "changed_by": set(), "step_findings": 0, "upsert_changed_key": 0,
+           "rejected_step": None, "stale_formula_after_rollback": False}
+
+  def find(sig, detail):
+    findings.append((sig, detail))
+
+  events = []          # (action index, row id, columns changed) of phase A
+  maps = {}            # sorted require columns -> bookkeeping of the lookups of that index within the bundle
+  k = 0
+  while True:
+    cur = w.rows()
+    a = gen.next(cur, k) if gen is not None else (fixed[k] if k < len(fixed) else None)
+    if a is None:
+      break
+    a = copy.deepcopy(a)
+    actions.append(a)
+    ok, ret, err = True, None, None
+    if a[0] in UPSERTS:
+      sc = upsert_case(a, data_rows(cur))
+      r = run_case(w, sc, reset=False)
+      r["case"] = _strip(sc)
+      steps.append(r)
+      step_at.append(k)
+      facts["n_upserts"] += 1
+      facts["step_findings"] += len(r["findings"])
+      ok = r["facts"]["accepted"]
+      ret = r["real"].get("ret")
+      err = None if ok else (r["real"]["error"], r["real"]["tag"])
+      ms = match_sets(cur, sc, w.conv) if ok else None
+      if ms is not None and sc["require"]:
+        key = tuple(sorted(sc["require"]))
+        cols = set(key)
+        m = maps.get(key)
+        since = m["last"] if m is not None else -1
+        dirty = set(rid for (s, rid, cs) in events if s >= since and (cs & cols))
+        if m is None:
+          m = maps[key] = {"last": -1, "done": set(), "rows": init_full}
+          if fresh_b:
+            m["done"] |= set(x[0] for x in cur)    # a new index computes every record at its first lookup
+        if dirty:
+          facts["lookups_after_change"] += 1
+          if ms != match_sets(init_full, sc, w.conv):
+            facts["matches_moved_since_start"] += 1
+          if m["last"] >= 0 and ms != match_sets(m["rows"], sc, w.conv):
+            facts["matches_moved_since_lookup"] += 1
+        if dirty & m["done"]:
+          facts["lookups_rechanged"] += 1
+        m["done"] |= dirty
+        m["last"], m["rows"] = k, cur
+    else:
+      exp = plain_reference(cur, a, w.conv, dict(defaults))
+      res = w.doc.apply([a])
+      ok = bool(res.ok)
+      if ok:
+        ret = res.ret[0]
+        got = w.rows()
+        if exp is None:
+          find(SIG_SEQ_PLAIN, "%r accepted, the naive reference rejects it" % (a,))
+        elif ret != exp[1] or [x[0] for x in got] != [x[0] for x in exp[0]] or any(
+            ed.tokv(g[1][c]) != ed.tokv(e[1][c]) for g, e in zip(got, exp[0]) for c in ALLC):
+          find(SIG_SEQ_PLAIN, "%r on %r: expected %r ret %r, got %r ret %r" % (a, cur, exp[0], exp[1], got, ret))
+      else:
+        err = (res.error[0], "plain")
+        if exp is not None:
+          find(SIG_SEQ_PLAIN, "%r rejected (%s: %s), the naive reference accepts it" % ((a,) + tuple(res.error)))
+      facts["plain"].append(a[0])
+    sep.append({"ok": ok, "ret": ret, "err": err})
+    if ok:
+      ch = changed_cells(cur, w.rows())
+      for rid, cs in ch.items():
+        events.append((k, rid, cs))
+      if ch:
+        facts["changed_by"].add("upsert" if a[0] in UPSERTS else a[0])
+        if a[0] in UPSERTS and any(cs & set(sc["require"]) for cs in ch.values()):
+          facts["upsert_changed_key"] += 1
+      if gen is not None:
+        gen.note(ch.keys())
+    k += 1
+    if not ok:
+      facts["rejected_step"] = k - 1
+      break
+  facts["n_actions"] = len(actions)
+  facts["changed_by"] = sorted(facts["changed_by"])
+  exp_t = w.doc.snapshot(tables=["T"])["T"]
+  exp_ok = all(x["ok"] for x in sep)
+  # ---- phase B: the same actions as ONE bundle
+  wb = World() if fresh_b else w
+  wb.reset(rows_init)
+  before = dict(wb.others, T=wb.doc.snapshot(tables=["T"])["T"])
+  res = wb.doc.apply(actions)
+  after = wb.doc.snapshot()
+  if wb is w:
+    w.others = {t: v for t, v in after.items() if t != "T"}
+  facts["accepted"] = bool(res.ok)
+  bundle = {"ok": bool(res.ok), "error": list(res.error) if res.error else None, "ret": res.ret if res.ok else None}
+  what = "bundle %r on T=%r" % (actions, rows_init)
+  if exp_ok:
+    if not res.ok:
+      find(SIG_SEQ_REJECTED, "%s: %s: %s" % ((what,) + tuple(res.error)))
+    else:
+      td = after["T"]
+      bundle["ids"] = list(td["ids"])
+      bundle["cells"] = {str(rid): {c: ptok_or_repr(v) for c, v in rec.items() if c in STORED}
+                         for rid, rec in wb.rows()}
+      for j, x in enumerate(sep):
+        if j >= len(res.ret) or res.ret[j] != x["ret"]:
+          find(SIG_SEQ_RET if actions[j][0] in UPSERTS else SIG_SEQ_TABLE,
+               "%s: action #%d %r returns %r in the bundle, %r when the actions are applied as separate bundles" % (
+                 what, j, actions[j], res.ret[j] if j < len(res.ret) else None, x["ret"]))
+          break
+      if td != exp_t:
+        find(SIG_SEQ_TABLE, "%s: %s (T after the separate bundles -> T after the one bundle)" % (
+          what, "; ".join(ed.diff_snapshots({"T": exp_t}, {"T": td}))))
+      other = {t: v for t, v in before.items() if t != "T"}
+      other_after = {t: v for t, v in after.items() if t != "T"}
+      if other != other_after:
+        find(SIG_SEQ_OTHER, "%s: %s" % (what, "; ".join(ed.diff_snapshots(other, other_after))))
+  else:
+    j = facts["rejected_step"]
+    if res.ok:
+      find(SIG_SEQ_ACCEPTED, "%s: action #%d %r is rejected (%r) after the preceding ones, the bundle returns %r" % (
+        what, j, actions[j], sep[j]["err"], res.ret))
+    else:
+      got = (res.error[0], err_tag(res.error) if actions[j][0] in UPSERTS else "plain")
+      if got != tuple(sep[j]["err"]):
+        find(SIG_SEQ_ERROR, "%s: bundle %r, action #%d alone %r" % (what, got, j, sep[j]["err"]))
+      if before != after:
+        # the recorded deviation of the failure path (C04: the rollback does not recalculate) has a signature of
+        # its own, and only under its specific condition: nothing but cells of the formula column f of T
+        # differ, and a [Calculate] bundle brings the document back to exactly the state before the bundle
+        only_f = {t: v for t, v in before.items() if t != "T"} == {t: v for t, v in after.items() if t != "T"} \
+          and before["T"]["ids"] == after["T"]["ids"] and set(before["T"]["cols"]) == set(after["T"]["cols"]) \
+          and all(before["T"]["cols"][c] == after["T"]["cols"][c] for c in before["T"]["cols"] if c != FORMULA)
+        detail = "%s: %s" % (what, "; ".join(ed.diff_snapshots(before, after)))
+        if only_f and j > 0 and actions[j][0] in UPSERTS:
+          rc = wb.doc.apply([["Calculate"]])
+          if rc.ok and wb.doc.snapshot() == before:
+            facts["stale_formula_after_rollback"] = True
+            find(SIG_SEQ_STALE_F, detail)
+          else:
+            find(SIG_SEQ_ROLLBACK, detail + " (and a Calculate bundle does not restore it)")
+        else:
+          find(SIG_SEQ_ROLLBACK, detail)
+  if any(sig != SIG_SEQ_STALE_F for sig, _ in findings):
+    w.poisoned = True     # do not trust this document any further (the worker takes a new one)
+  return {"seq": True, "steps": steps, "step_at": step_at, "bundle": bundle, "findings": findings, "facts": facts,
+          "case": {"kind": "seq", "rows": rows_init, "actions": actions, "fresh_b": fresh_b}}
+
+
+def _row(i, t="a"):
+  return {"i": i, "t": t, "b": False, "c": "", "r": 0}
+
+
+_R12 = [[1, _row(1, "p")], [2, _row(2, "q")]]
+_AOU, _BAOU = "AddOrUpdateRecord", "BulkAddOrUpdateRecord"
+
+# fixed bundles, each run with its one-bundle phase in a brand-new document (no lookup index exists there yet)
+SEQ_WITNESSES = [
+  # upsert, key of another record changed by UpdateRecord, upsert on the new key (and on the old one: must add)
+  [[_AOU, "T", {"i": 1}, {"t": "x"}, {}], ["UpdateRecord", "T", 2, {"i": 3}], [_AOU, "T", {"i": 3}, {"t": "y"}, {}],
+   [_AOU, "T", {"i": 2}, {"t": "z"}, {}]],
+  # change - upsert - change of the same record again - upsert (stale also when the index existed before)
+  [["UpdateRecord", "T", 2, {"i": 3}], [_AOU, "T", {"i": 3}, {"t": "x"}, {}], ["UpdateRecord", "T", 2, {"i": 4}],
+   [_AOU, "T", {"i": 4}, {"t": "y"}, {}], [_AOU, "T", {"i": 3}, {"t": "z"}, {"add": False}]],
+  # a record added by an upsert, found by the next one, its key changed, looked up by the old and the new key
+  [[_BAOU, "T", {"i": [7]}, {"t": ["n"]}, {}], [_AOU, "T", {"i": 7}, {"t": "m"}, {}], ["UpdateRecord", "T", 3, {"i": 8}],
+   [_BAOU, "T", {"i": [7, 8]}, {"t": ["u", "v"]}, {}]],
+  # RemoveRecord of a record an earlier upsert found: the key must be added again
+  [[_AOU, "T", {"i": 1}, {"t": "x"}, {}], ["RemoveRecord", "T", 1], [_AOU, "T", {"i": 1}, {"t": "y"}, {}]],
+  # AddRecord, then the upsert must update it; on_many=all over the two records that now share the key
+  [[_AOU, "T", {"i": 2}, {"t": "x"}, {}], ["AddRecord", "T", None, {"i": 2}],
+   [_BAOU, "T", {"i": [2]}, {"t": ["w"]}, {"on_many": "all"}]],
+  # the first upsert changes the key cell through col_values
+  [[_AOU, "T", {"i": 1}, {"i": 9}, {}], [_AOU, "T", {"i": 9}, {"t": "w"}, {}], [_AOU, "T", {"i": 1}, {"t": "n"}, {}]],
+  # the formula column as the key, changed through column i
+  [[_AOU, "T", {"f": 2}, {"t": "x"}, {}], ["UpdateRecord", "T", 1, {"i": 3}], [_AOU, "T", {"f": 6}, {"t": "y"}, {}],
+   [_AOU, "T", {"f": 2}, {"t": "z"}, {"add": False}]],
+  # two key columns, BulkUpdateRecord in between
+  [[_AOU, "T", {"i": 1, "t": "p"}, {"c": "u"}, {}], ["BulkUpdateRecord", "T", [1, 2], {"t": ["q", "p"]}],
+   [_BAOU, "T", {"i": [1, 2], "t": ["q", "p"]}, {"c": ["v", "v"]}, {}]],
+  # a later action of the bundle is invalid: everything is rolled back
+  [[_AOU, "T", {"i": 1}, {"t": "x"}, {}], ["UpdateRecord", "T", 2, {"i": 3}],
+   [_BAOU, "T", {"i": [3, 3]}, {"t": ["y", "z"]}, {}]],
+  # ... after an upsert of the bundle evaluated the formula column (looked up by it): the recorded finding
+  # SIG_SEQ_STALE_F (T[1].f keeps 6 until the next calculation)
+  [["UpdateRecord", "T", 1, {"i": 3}], [_AOU, "T", {"f": 6}, {"t": "x"}, {}],
+   [_BAOU, "T", {"i": [3, 3]}, {"t": ["y", "z"]}, {}]],
+]
+
+
+def gen_seq_cases(seed, n):
+  rng = random.Random("C28/seqs/%s" % seed)
+  for _ in range(n):
+    rows = gen_rows(rng)
+    if len(rows) < 2 and rng.random() < 0.7:
+      rows = [[1, _row(rng.choice(POOL["i"]), "a")], [2, _row(rng.choice(POOL["i"]), "b")],
+              [4, _row(rng.choice(POOL["i"]), "a")]]
+    yield {"kind": "seq", "rows": rows, "seq_seed": rng.getrandbits(40), "fresh_b": rng.random() < 0.12}
 
 
 # --------------------------------------------------------------------------- generation
@@ -896,8 +1413,15 @@ def _worker(args):
   w = World()
   out = []
   for case in cases:
-    if w.n_cases and w.n_cases % fresh_every == 0:
+    if w.n_cases >= fresh_every or w.poisoned:
       w = World()
+    if case["kind"] == "seq":
+      try:
+        out.append(run_seq(w, case))
+      except Exception:
+        import traceback
+        return {"infra": "case %s: %s" % (json.dumps(case, default=str)[:900], traceback.format_exc()[-900:])}
+      continue
     chain = case.get("chain") and w.n_cases > 0
     if chain:
       case = dict(case, rows=[[rid, {c: rec[c] for c in DATA}] for rid, rec in w.rows()])
@@ -933,9 +1457,18 @@ def run_all(ck, cases):
   return results
 
 
+def model_ret(m, kind):
+  if kind == "bulk":
+    return {k: m[k] for k in ("recordIds", "addRecordIds", "updateRecordIds")}
+  return {"recordIds": m["recordIds"], "action": m["action"]}
+
+
 def judge(ck, results):
+  seqs = [r for r in results if r.get("seq")]
+  results = [r for r in results if not r.get("seq")] + [st for r in seqs for st in r["steps"]]
   model = ck.driver([r["op"] for r in results])
-  mism = None
+  answer = dict((id(r), mo) for r, mo in zip(results, model))
+  mism = judge_seqs(ck, seqs, answer)
   explained = 0
   for r, mo in zip(results, model):
     ck.evaluated()
@@ -1007,6 +1540,79 @@ def judge(ck, results):
     ck.count("disagreements_next_to_reported_violation")
 
 
+def judge_seqs(ck, seqs, answer):
+  """The bundles of several actions: counters, findings of the direct oracle, and the tie of the model with the
+  ONE-bundle run - the model's retValues for every upsert of the bundle (computed on the table the separate
+  bundles produced before that action) against the retValues the bundle returned; for a bundle that ends
+  with an upsert also the model's final cells against the bundle's.  Returns the first mismatch or None."""
+  mism = None
+  for r in seqs:
+    ck.evaluated()
+    case, facts, b = r["case"], r["facts"], r["bundle"]
+    ck.count("seq:bundles")
+    ck.count("seq:actions_in_bundles", facts["n_actions"])
+    ck.count("seq:upserts_in_bundles", facts["n_upserts"])
+    ck.count("seq:steps_also_judged_as_single_action_cases", len(r["steps"]))
+    for name in facts["plain"]:
+      ck.count("seq:plain_action:" + name)
+    ck.count("seq:bundle_accepted" if facts["accepted"] else "seq:bundle_rejected")
+    if facts["rejected_step"] is not None:
+      ck.count("seq:bundles_with_a_rejected_action")
+      if facts["rejected_step"] > 0:
+        ck.count("seq:bundles_rejected_after_earlier_actions_wrote")
+    if facts["stale_formula_after_rollback"]:
+      ck.count("seq:rejected_bundles_with_stale_formula_cells_until_next_calculation")
+    if facts["fresh_b"]:
+      ck.count("seq:one_bundle_phase_in_a_new_document")
+    if facts["n_upserts"] >= 2:
+      ck.count("seq:bundles_with_2+_upserts")
+    for name in facts["changed_by"]:
+      ck.count("seq:bundles_where_table_changed_by:" + name)
+    ck.count("seq:upserts_changing_a_cell_of_their_own_require_columns", facts["upsert_changed_key"])
+    ck.count("seq:upsert_lookups_after_in_bundle_change_of_their_require_columns", facts["lookups_after_change"])
+    ck.count("seq:..whose_matches_differ_from_those_on_the_table_before_the_bundle", facts["matches_moved_since_start"])
+    ck.count("seq:..whose_matches_differ_from_those_at_the_previous_in_bundle_lookup_of_that_key",
+             facts["matches_moved_since_lookup"])
+    ck.count("seq:upsert_lookups_of_records_changed_again_after_an_earlier_in_bundle_lookup_computed_them",
+             facts["lookups_rechanged"])
+    if facts["lookups_after_change"]:
+      ck.count("seq:bundles_with_upsert_after_in_bundle_key_change")
+    if facts["lookups_rechanged"]:
+      ck.count("seq:bundles_with_lookup_of_rechanged_records")
+    if facts["step_findings"]:
+      ck.count("seq:bundles_with_a_step_that_has_findings_of_its_own")
+    if facts["accepted"] and facts["lookups_after_change"]:
+      ck.nontrivial_case(case)
+      if facts["matches_moved_since_lookup"]:
+        ck.sample({"bundle": case["actions"], "T": case["rows"], "retValues": b["ret"]})
+    elif not facts["accepted"] and (facts["rejected_step"] or 0) > 0:
+      ck.nontrivial_case(case)
+    for sig, detail in r["findings"]:
+      ck.violation(sig, detail, {"case": case})
+    # ---- model tie on the one-bundle run
+    if not b["ok"] or facts["rejected_step"] is not None:
+      continue
+    for st, k in zip(r["steps"], r["step_at"]):
+      mo = answer[id(st)]
+      m = mo.get("impl")
+      if m is None or "error" in m:
+        d = "model answered %r for an accepted action" % (mo,)
+      else:
+        kind = st["case"]["kind"]
+        d = None
+        ck.count("seq:model_tied_upserts_of_one_bundle_runs")
+        if model_ret(m, kind) != b["ret"][k]:
+          d = "retValues of action #%d in the bundle: real %r model %r" % (k, b["ret"][k], model_ret(m, kind))
+        elif k == facts["n_actions"] - 1 and "ids" in b:
+          ck.count("seq:model_tied_final_tables_of_one_bundle_runs")
+          d = compare_model({"ids": b["ids"], "cells": b["cells"], "ret": b["ret"][k]}, mo, kind)
+      if d is not None:
+        ck.count("seq:model_vs_one_bundle_disagreements")
+        if mism is None:
+          mism = {"case": case, "difference": d, "real": b, "model": mo.get("impl")}
+  return mism
+
+
 def same_outcome(a, b, skip=()):
   if "error" in a or "error" in b:
     return a.get("error") == b.get("error") and a.get("tag") == b.get("tag")
@@ -1029,8 +1635,22 @@ RULE = ("seeded stream of cases on a live engine: table T (Int/Text/Bool/Choice/
         "on the previous case's table; plus exhaustive small scopes (3 rows x keys in {1,2,3} x 12 option combinations; "
         "empty require with 1-3 input rows; keys coinciding after conversion per column type; the empty column as the "
         "only key, next to a data key, in col_values, in both, and under an empty require, on an empty and a 2-row table). "
+        "SEVERAL ACTIONS IN ONE BUNDLE (kind seq; 320 quick / 4000 thorough + 10 fixed bundles): 3-7 user actions on T "
+        "around one lookup key (1-2 require columns out of the data columns and the formula column; not the empty "
+        "column), generated adaptively against the table as the previous actions left it: upserts (bulk / single, "
+        "all option combinations, 7% with an invalid request) alternate with UpdateRecord / BulkUpdateRecord of a key "
+        "column (column i for the formula key) / AddRecord / RemoveRecord / upserts whose col_values hold a key column, "
+        "preferably on the records the previous actions touched; the upserts look up keys acquired or lost in this "
+        "bundle; the actions are applied as separate bundles (each upsert also judged as a single-action case, each "
+        "plain action by a naive reference) and then, on the reset table, as ONE bundle (12% - and the fixed ones - in a "
+        "brand-new document where no lookup index exists yet); counters seq:* say how many upsert lookups followed an "
+        "in-bundle change of their require columns, how many of them had other matches than before the bundle / than "
+        "at the previous in-bundle lookup of the same key, and how many concerned records changed AGAIN after an earlier "
+        "in-bundle lookup had computed them. "
         "non-trivial = accepted request that wrote to a table of >= 2 rows, or an invalid request rejected on a non-empty "
-        "table; distinct by (rows, request, options)")
+        "table, or a bundle of several actions that is accepted and has an upsert lookup after an in-bundle change of its "
+        "require columns, or that is rejected after earlier actions wrote; distinct by (rows, request, options) / "
+        "(rows, actions)")
 
 ASSUMPTIONS = [
   "cell values are None/bool/int/str scalars; Python equality of values = equality of tokens (checked per case by the tie)",
@@ -1044,6 +1664,20 @@ ASSUMPTIONS = [
   "the model's impl-vs-spec instance check leaves the cells of column e out when a conversion happens",
   "at most one non-writable column in col_values (which of two errors comes first depends on set iteration order)",
   "Lean theorem hypotheses: next exceeds every row id, row ids distinct, (for impl=spec) no record targeted twice",
+  "several actions in ONE bundle (seq:* counters): the Lean model is a function of ONE request and ONE table; it has no "
+  "notion of a bundle, of the lookup index or of the engine's bookkeeping between doc actions.  That an upsert inside a "
+  "bundle sees the table as the previous actions of the bundle left it (freshness of the lookup index within a bundle), "
+  "that a bundle with a rejected action is rolled back entirely, and the plain record actions in between are judged by "
+  "the DIRECT ORACLE ONLY: bundle retValues / final table T / other tables / error == the same actions applied as "
+  "separate bundles, every link of that chain judged by the independent reference (upserts) or a naive reference "
+  "(UpdateRecord, BulkUpdateRecord, AddRecord, RemoveRecord).  The model takes part only per action: each upsert of the "
+  "chain is tied as a single-action case, and the model's retValues for it (and, for a last upsert, its final cells) "
+  "are also compared with what the ONE bundle returned - with the table before that action taken from the "
+  "separate-bundle run, not from the model",
+  "sequences never name the EMPTY column e (its conversion is a schema change; single-action cases only); a rejected "
+  "bundle must leave doc.snapshot() unchanged - formula cells included; the one recorded deviation (formula cells stale "
+  "until the next calculation, C04's rollback-does-not-recalculate) is reported under its own signature only when "
+  "nothing but cells of column f differ and a [Calculate] bundle restores the snapshot exactly",
 ]
 
 
@@ -1053,8 +1687,18 @@ def run(ck):
   ck.lean(["GristProps.C28"])
   n = 900 if ck.tier == "quick" else 80000
   cases = [dict(c) for c in WITNESSES]
+  cases += [{"kind": "seq", "rows": _R12, "actions": a, "fresh_b": True} for a in SEQ_WITNESSES]
   cases += exhaustive_cases(ck.tier, ck.rng)
   cases += list(gen_cases(ck.seed, n))
+  # bundles of several actions, spread over the stream (and so over the workers)
+  seqs = list(gen_seq_cases(ck.seed, 320 if ck.tier == "quick" else 4000))
+  step = max(1, len(cases) // len(seqs))
+  mixed = []
+  for k, c in enumerate(cases):
+    mixed.append(c)
+    if k % step == step - 1 and seqs:
+      mixed.append(seqs.pop())
+  cases = mixed + seqs
   results = run_all(ck, cases)
   judge(ck, results)
 
@@ -1064,6 +1708,23 @@ def replay(ck, rp):
   common.setup_repo_path()
   case = rp["replay"]["case"]
   w = World()
+  if case["kind"] == "seq":
+    r = run_seq(w, case)
+    print("replay: one bundle %r on T=%r%s" % (r["case"]["actions"], case["rows"],
+                                               " (in a new document)" if case.get("fresh_b") else ""))
+    print("  bundle outcome: %r" % (r["bundle"],))
+    for st, k in zip(r["steps"], r["step_at"]):
+      print("  action #%d as a bundle of its own: %r" % (k, st["real"]))
+      for sig, detail in st["findings"]:
+        print("    finding of that action alone: %s: %s" % (sig, detail))
+    for sig, detail in r["findings"]:
+      print("  finding: %s: %s" % (sig, detail))
+    if not r["findings"]:
+      print("  property holds on this input")
+    judge(ck, [r])
+    ck.nontrivial_case("replay"); ck.nontrivial_case(case)
+    ck.lean(["GristProps.C28"])
+    return
   r = run_case(w, case)
   r["case"] = _strip(case)
   print("replay: %s T=%r require=%r col_values=%r options=%r" % (
